@@ -48,7 +48,7 @@ DROPS = ('std::string result -> out-parameter (OUT_STR), s.c_str() -> (const cha
          'statements, interior test) assembled into fd_line_loop / fd_line, max<int64_t> -> macro, PrintDataFlags::X -> values read from Strings.hh')
 NOT_DECIDED = [
     'hex dump (format_data core, print_data/format_data overloads): NOT decided by this technique except for the line geometry (groups format_data.line_loop / line_geometry) -- '
-    'generic lambda, std::function, string_printf("%0*llX"/" %02X"/"%g"), terminal escapes; not decided: the text of the address/hex/ASCII/float columns, flag combinations other '
+    'generic lambda, std::function, string_printf("%0*llX"/" %02X"/"%g"), terminal escapes; decided for the ASCII column of a line with colour off (group format_data.ascii_column); not decided: the text of the address/hex/float columns, the colour escapes, flag combinations other '
     'than the OFFSET_* width selection, diff highlighting, WHICH all-zero interior lines are omitted (only: first and last line are never candidates), the iovec cursors and '
     'partition independence (the geometry shows that the lines ask for exactly `size` bytes in address order; that the cursor delivers byte k of the concatenation is not proved)',
     'the composition parse(format(x, mask)) == (x, mask) for unbounded length: proved as step lemmas + classification + brackets (induction stated, not machine-checked); '
